@@ -266,6 +266,17 @@ func init() {
 				e.Violate("c18-layout", fmt.Sprintf("%q rendered %q (%s %s), want %q", t[0], o.Out, o.Class, o.Msg, t[1]), map[string]interface{}{"case": c.Tmpl, "observed": o})
 			}
 		}
+		// a comment tag whose text holds an unbalanced quote (recorded finding: the text of a
+		// comment tag is tokenized, so the quote opens a string that swallows what follows)
+		for _, t := range [][2]string{
+			{"a<%# say \"hi %>b<%= n %>c", "ab3c"}, {"a<%# it`s %>b<%= n %>c<%= \"x\" %>", "ab3cx"}, {"<%= n %><%# \" %>|<%= n %>", "3|3"},
+		} {
+			c := RCase{Tmpl: t[0], Binds: binds}
+			o := e.addRenderCase("comment-quote", c)
+			if o.Class != "OK" || o.Out != t[1] {
+				e.Violate("c18-comment-tag-with-quote", fmt.Sprintf("%q rendered %q (%s %s), want %q: the quote inside the comment tag is lexed as the start of a string", t[0], o.Out, o.Class, o.Msg, t[1]), map[string]interface{}{"case": c.Tmpl, "observed": o})
+			}
+		}
 	})
 }
 
